@@ -12,6 +12,7 @@ EXPLANATION = (
     "every evaluation of a user expression in executor::* must be preceded by it (same body, enclosing closure, guarding loop, listed wrapper, or "
     "every caller). Errors the evaluator turns into null by design are not decided."
     " C22.6: every non-null Ok result of the percentile aggregates is dominated by the Ok arm of resolve_percentile (the range check of the percentile argument)."
+    " C22.7: every evaluator construct that binds a variable per element (list comprehension, quantifiers, reduce, pattern comprehension) has a scoped re-check in the runtime pre-pass (a recursive call on a row extended by Row::with inside the region that recognises the construct)."
 )
 
 QERR = ("nervusdb_query::error::Error", "nervusdb_storage::error::Error")
@@ -31,6 +32,7 @@ def run(ctx):
     ctx.rule("C22.2", "no query/storage Result is discarded in the executor / query API")
     ctx.rule("C22.3", "every row-level expression evaluation is preceded by the runtime-compatibility pre-pass")
     percentile_rule(ctx)
+    scoped_prepass_rule(ctx)
     ctx.rule("C22.4", "an operator that runs the pre-pass runs it on every path that can yield rows (only error exits bypass it)")
 
     sites, its = rowflow.adaptor_sites(F, EXEC)
@@ -156,3 +158,80 @@ def percentile_rule(ctx, rid="C22.6"):
                            "%s returns a value on a path that never validated the percentile argument: an out-of-range percentile yields a result instead of "
                            "the NumberOutOfRange runtime error" % short, "%s:%d" % (b.file, b.line_of_block(bi)))
     ctx.floor(rid, "value results of the percentile aggregates", n, 2)
+
+
+PREPASS = "nervusdb_query::executor::plan_mid::ensure_runtime_expression_compatible"
+EXPR = "nervusdb_query::ast::Expression"
+# evaluator functions that evaluate a body once per element with a variable bound  ->  how the pre-pass recognises the construct
+BINDERS = {
+    "nervusdb_query::evaluator::evaluator_comprehension::evaluate_list_comprehension": ("variant", "ListComprehension"),
+    "nervusdb_query::evaluator::evaluator_comprehension::evaluate_quantifier": ("name", "__quant_"),
+    "nervusdb_query::evaluator::evaluator_comprehension::evaluate_reduce": ("name", "__reduce"),
+    "nervusdb_query::evaluator::evaluator_pattern::evaluate_pattern_comprehension": ("variant", "PatternComprehension"),
+}
+
+
+def scoped_prepass_rule(ctx, rid="C22.7"):
+    """every construct whose body is evaluated with a variable bound per element is checked by the pre-pass in that scope"""
+    from .. import tables
+    from ..facts import op_const
+    from ..mirutil import switch_on
+    F = ctx.facts
+    ctx.rule(rid, "for every evaluator construct that evaluates a body once per element with a variable bound (list comprehension, quantifiers, reduce, pattern "
+             "comprehension) the runtime pre-pass re-checks the body under a row extended with that variable (a recursive call whose row comes from Row::with): "
+             "checked against the outer row the variable is unbound, the body sees null and a real runtime error is swallowed")
+    # completeness of the table: every evaluator function that binds a row variable is listed
+    found = set()
+    for i, b in F.bodies.items():
+        if i.startswith("nervusdb_query::evaluator::") and any(c.name.endswith("Row::with") for c in b.calls()):
+            found.add(b.root or i)
+    listed = set(BINDERS) | {"nervusdb_query::evaluator::evaluator_pattern::collect_pattern_comprehension_matches_from",
+                             "nervusdb_query::evaluator::evaluator_pattern::collect_variable_length_pattern_comprehension_matches"}
+    found = {x for x in found if not any(x == y or x.startswith(y + "::") for y in listed)}
+    for x in sorted(found):
+        ctx.finding(rid, "%s:unlisted-binder:%s" % (rid, x.split("::")[-1]), "%s binds a row variable but is not in the table of binding constructs" % x, F.bodies[x].file)
+    pb = ctx.body(PREPASS)
+    adt = ctx.adt(EXPR)
+    names = [v["name"] for v in adt["variants"]]
+    sw = tables.enum_switch(pb, EXPR, F)
+    withs = [c for c in pb.calls() if c.name.endswith("Row::with")]
+    recs = [c for c in pb.calls() if c.name == PREPASS]
+
+    def scoped_in(region):
+        """a recursive call in `region` whose row argument derives from a Row::with in `region`"""
+        from .c26 import bslice
+        for r in recs:
+            if r.bb not in region or len(r.args) < 2:
+                continue
+            _, cs = bslice(pb, op_local(r.args[1]), depth=12)
+            if any(w.bb in region for w in cs if w.name.endswith("Row::with")):
+                return True
+        return False
+
+    n = 0
+    for fn, (kind, key) in sorted(BINDERS.items()):
+        ctx.body(fn)
+        n += 1
+        region = set()
+        if kind == "variant" and sw and key in names and names.index(key) in sw[1]:
+            region = set(tables.dominated_region(pb, sw[1][names.index(key)], sw[0]))
+        elif kind == "name":
+            for c in pb.calls():
+                ks = []
+                for a in c.args:
+                    k = op_const(a)
+                    if k is None and op_local(a) is not None:
+                        o = pb.origin(op_local(a))
+                        k = o[1] if o and o[0] == "const" else None
+                    ks.append(k)
+                if any(k is not None and key in str(k.get("d", "")) for k in ks) and c.target is not None:
+                    sw2 = switch_on(pb, c.target)
+                    if sw2 and len(sw2[2]) == 1:
+                        tb = sw2[3] if not sw2[1] else sw2[2][0][1]
+                        region |= {x for x in range(len(pb.blocks)) if pb.dominates(tb, x)}
+        ok = bool(region) and scoped_in(region)
+        ctx.instance(rid, "%s (%s %s): scoped re-check in the pre-pass=%s" % (fn.split("::")[-1], kind, key, ok))
+        ctx.oblige(ok, rid, "%s:%s:unscoped" % (rid, key),
+                   "the pre-pass has no scoped re-check for %s (%s): its body is checked against the outer row only, so a runtime type error that depends on the "
+                   "bound element is turned into null instead of failing the query" % (fn.split("::")[-1], key), pb.file)
+    ctx.floor(rid, "binding constructs", n, 4)
